@@ -93,6 +93,12 @@ static PyObject * specpart(PyObject *self, PyObject *args)
   if (NULL == specin)
     return NULL;
 
+  /* The watershed indexes the raw buffer as C-ordered float32 (nk, nth): make sure it is,
+     e.g., a transposed view cast with astype keeps its Fortran layout */
+  specin = (PyArrayObject *) PyArray_FROM_OTF((PyObject *) specin, NPY_FLOAT, NPY_ARRAY_IN_ARRAY);
+  if (NULL == specin)
+    return NULL;
+
   nk = dims[0] = PyArray_DIMS(specin)[0];
   nth = dims[1] = PyArray_DIMS(specin)[1];
 
@@ -113,5 +119,6 @@ static PyObject * specpart(PyObject *self, PyObject *args)
   // Don't think that is necessary
   //PyArray_free(spec);
   
+  Py_DECREF(specin);
   return PyArray_Return(ipartout);
 }
